@@ -996,7 +996,8 @@ def _parse(
             elif operator == "whitespace":
                 mode = suffix.strip()
                 # Validate the selected mode
-                filter_whitespace(mode, "")
+                if mode not in ("all", "single", "oneline"):
+                    reader.raise_parse_error("invalid whitespace mode %s" % mode)
                 reader.whitespace = mode
                 continue
             elif operator == "raw":
